@@ -205,8 +205,17 @@ def run_tamper(case) -> CaseResult:
 
     algs = {'encryption_algs': [enc], 'mac_algs': [mac],
             'compression_algs': [comp], 'kex_algs': ['curve25519-sha256']}
-    pair = Pair(dict(algs, server_factory=Server, encoding=None),
-                dict(algs, client_factory=lambda: LogClient(clog)))
+    sextra: Dict[str, Any] = {}
+    cextra: Dict[str, Any] = {}
+
+    if case.get('srekey'):
+        # the sending side starts a key re-exchange once it has sent this
+        # many bytes: its KEXINIT then travels in the middle of the workload
+        (cextra if direction == 'cs' else sextra)['rekey_bytes'] = \
+            case['srekey']
+
+    pair = Pair(dict(algs, server_factory=Server, encoding=None, **sextra),
+                dict(algs, client_factory=lambda: LogClient(clog), **cextra))
     h = pair.h
     wire = h.wire
     t = case['tamper']
@@ -243,6 +252,11 @@ def run_tamper(case) -> CaseResult:
         h.settle()
         recs = list(wire.q[send_side])
         wire.q[send_side].clear()
+        # (read for a label only: the sender has a key exchange in flight,
+        # so the last record it queued is its KEXINIT)
+        # pylint: disable=protected-access
+        mid_rekey = not (pair.c if direction == 'cs'
+                         else pair.s)._kex_complete
 
         if not recs:
             return CaseResult(['no-records'], False)
@@ -276,10 +290,24 @@ def run_tamper(case) -> CaseResult:
             return [e for e in log if e[0] in ('s.connection_lost',
                                                'c.lost')]
 
-        # untouched prefix
-        for rec in recs[:nbefore]:
+        # untouched prefix.  TCP keeps no record boundaries: with
+        # `coalesce` the last untouched record and the first affected one
+        # arrive in one read (behind a KEXINIT, which a receiver may handle
+        # asynchronously, the affected record is then parsed when that
+        # handling is done)
+        coalesce = bool(case.get('coalesce')) and nbefore >= 1 and bool(tail)
+        held = b''
+
+        for i, rec in enumerate(recs[:nbefore]):
+            if coalesce and i == nbefore - 1:
+                held = rec
+                break
+
             vproto.data_received(rec)
             h.settle()
+
+        if coalesce:
+            tail = [held + tail[0]] + tail[1:]
 
         if vlost():
             raise Violation('prefix', 'victim failed on untouched records',
@@ -287,6 +315,11 @@ def run_tamper(case) -> CaseResult:
 
         d_before = vdata()
         ev_before = len(vevents)
+        d_held = b''
+
+        if coalesce:
+            # what the held-back untouched record may still deliver
+            d_held = b''.join(sent)[len(d_before):]
 
         if not b''.join(sent).startswith(d_before):
             raise Violation('prefix', 'data delivered before the tamper is '
@@ -364,6 +397,12 @@ def run_tamper(case) -> CaseResult:
 
         d_final = vdata()
 
+        if coalesce and d_final.startswith(d_before) and \
+                d_held.startswith(d_final[len(d_before):]):
+            # (the untouched record that travelled with the affected one:
+            # at most one record's worth of what was sent, in order)
+            d_before = d_final
+
         if d_final != d_before:
             raise Violation(
                 'altered-data-delivered',
@@ -373,6 +412,10 @@ def run_tamper(case) -> CaseResult:
                  comp), 'altered-data:' + t['kind'])
 
         after = [e[0] for e in vevents[ev_before:]]
+
+        if coalesce and after and after[0] in ('data', 'eof'):
+            # the untouched record that shared the read
+            after = after[1:]
 
         if any(k not in ('lost',) for k in after):
             raise Violation('event-after-tamper', 'session callbacks after '
@@ -394,6 +437,13 @@ def run_tamper(case) -> CaseResult:
             labels.append('mac:' + mac)
         if d_before:
             labels.append('data-before-tamper')
+        if coalesce:
+            labels.append('coalesced')
+            if nbefore == len(recs) and case.get('srekey') and \
+                    mid_rekey:
+                # (label only) the record sharing the read is the sender's
+                # KEXINIT
+                labels.append('behind-kexinit')
         if len(recs[j]) >= 4096:
             labels.append('record>=4096')
         if len(recs[j]) >= 32768:
@@ -449,6 +499,8 @@ def strategy(tier: str):
                 'eof': draw(st.booleans()),
                 'rec': draw(st.integers(0, 30)),
                 'pre': draw(pick([0, 0, 4, 12])),
+                'coalesce': draw(pick([False, False, True])),
+                'srekey': draw(pick([None, None, None, None, 4000])),
                 'tamper': draw(tamper_strategy())}
 
     return build()
@@ -482,6 +534,23 @@ def grid(tier: str):
                                    'eof': True, 'rec': rec, 'tamper': t,
                                    'pre': 12 if t['kind'] == 'reflect'
                                    else 0}
+
+                    # an affected record in the same read as the sender's
+                    # KEXINIT (records: IGNORE, DATA 17, IGNORE, DATA 5000,
+                    # KEXINIT - the rest waits for the exchange), and in
+                    # the same read as a data record
+                    for t in tampers:
+                        if t['kind'] != 'dup':
+                            continue
+
+                        yield {'enc': enc, 'mac': mac, 'comp': comp,
+                               'dir': d, 'writes': [17, 5000, 300],
+                               'eof': False, 'rec': -1, 'tamper': t,
+                               'pre': 0, 'coalesce': True, 'srekey': 4000}
+                        yield {'enc': enc, 'mac': mac, 'comp': comp,
+                               'dir': d, 'writes': [17, 0, 300, 5],
+                               'eof': True, 'rec': 3, 'tamper': t,
+                               'pre': 0, 'coalesce': True}
 
                     # large records (an implementation may treat them on
                     # another code path): 5000 and 32768 bytes of data
@@ -633,7 +702,7 @@ def _required():
          'kind:flip:tag', 'kind:truncate:cut', 'kind:drop', 'kind:dup',
          'kind:swap', 'kind:splice', 'kind:insert', 'dir:cs', 'dir:sc',
          'kind:reflect:seq-aligned', 'kind:reflect:other-seq',
-         'immediate', 'by-eof', 'data-before-tamper']
+         'immediate', 'by-eof', 'data-before-tamper', 'coalesced']
 
 
 FAMILIES = [
@@ -643,6 +712,7 @@ FAMILIES = [
     Family('setup', run_setup, strategy=setup_strategy,
            budget={'quick': 600, 'thorough': 6000}, case_timeout=120),
     Family('grid', run_tamper, enumerate=grid, exhaustive=True,
-           required={'all': ['record>=4096', 'record>=32768']},
+           required={'all': ['record>=4096', 'record>=32768', 'coalesced',
+                             'behind-kexinit']},
            case_timeout=120),
 ]
